@@ -360,6 +360,9 @@ func main() {
 		dump := fs.String("dump", "", "directory for SMT scripts")
 		verbose := fs.Bool("v", false, "verbose")
 		fs.Parse(os.Args[2:])
+		if os.Getenv("GOVC_SINGLE") != "" {
+			crossCheck = true // diagnostic: wait for every back end and report obligations only one of them decides
+		}
 		if *dump != "" {
 			os.MkdirAll(*dump, 0o755)
 		}
